@@ -44,6 +44,12 @@ CHECKS["C28"] = ("model_checking",
   "Trusted: accesses are observed at the libc boundary of the checking process (open*, stat*, statx, access, unlink*, rename*, mkdir, rmdir, opendir, readlink); contents model.",
   "DESIGN.md §3-C28")
 
+CHECKS["C27"] = ("model_checking",
+  "deviation-bounded exhaustive exploration of event orders of the real wasm.rs persistence code over an explicit event-loop + IndexedDB environment model, page close after every committed transaction",
+  "The unmodified searchlite-wasm/src/wasm.rs is compiled natively against shim crates (wasm-bindgen, js-sys, web-sys, wasm-bindgen-futures, serde-wasm-bindgen stand-ins) that implement an explicit browser event loop and IndexedDB. For each driver script (init, add, commit awaited / not awaited, flush, reload) every order of driver statements and enabled IndexedDB events within the deviation bound is executed, and after every committed read-write transaction of every order the page is closed (uncommitted transactions aborted), init is re-run on the durable store and match_all is compared with the commits that had started and those whose promise had resolved.",
+  "Trusted: the environment model's reading of the HTML event-loop and IndexedDB transaction-ordering rules (listed in the evidence); shim fidelity for the ~30 API functions used. wasm32 code generation and real browsers are not exercised.",
+  "DESIGN.md §3-C27")
+
 NOT_YET = "check not built yet in this session (see DESIGN.md §3 for the planned engine); no verdict is claimed"
 NOT_APPLICABLE = {}
 
@@ -61,7 +67,7 @@ def main():
       "thorough_cmd": f"./check {pid} thorough",
       "evidence_file": f"/verif/evidence/{pid}.json",
       "replay_cmd_template": f"./check {pid} quick --replay {{path}}",
-      "engine": "vmc" if pid not in ("C01", "C02", "C28") else "vfs",
+      "engine": "wasmmc" if pid == "C27" else ("vmc" if pid not in ("C01", "C02", "C28") else "vfs"),
       "level_claimed": {"category": cat, "text": text, "design_ref": ref},
       "level_note": note,
       "technique": tech,
@@ -87,6 +93,8 @@ def main():
        "kind_free_text": "Rust: exhaustive enumeration engines (history BFS, schedule DFS, fault enumeration, input-space products) driving the real searchlite crates"},
       {"name": "vfs", "path": "/verif/harness/crates/vfs", "serves_properties": [c["property_id"] for c in checks if c["engine"] == "vfs"],
        "kind_free_text": "Rust: libc-interposing executable (fsshim) for crash-image enumeration and path-isolation checks"},
+      {"name": "wasmmc", "path": "/verif/harness/crates/wasmmc", "serves_properties": [c["property_id"] for c in checks if c["engine"] == "wasmmc"],
+       "kind_free_text": "Rust: native build of searchlite-wasm/src/wasm.rs over wshim (event-loop + IndexedDB model) with an event-order explorer"},
     ],
     "checks": checks,
     "not_applicable": na,
